@@ -270,7 +270,7 @@ static void build_alphabet(int fl, int variant)
     for (int i = 0; i < NI; i++) { if (fl != F_FIFO) add_op(K_PUSH_FRONT, i, -1); add_op(K_PUSH_BACK, i, -1); }
     add_op(K_POP_FRONT, -1, -1); add_op(K_TRY_POP_FRONT, -1, -1);
     if (fl != F_FIFO) { add_op(K_POP_BACK, -1, -1); add_op(K_TRY_POP_BACK, -1, -1); }
-    if (fl == F_FIFO) { add_rings(K_CHAIN_BACK, 3); return; }
+    if (fl == F_FIFO) { add_rings(K_CHAIN_BACK, NI > 6 ? 2 : 3); return; }
     if (fl == F_DEQUEUE) { add_rings(K_CHAIN_FRONT, NI > 5 ? 2 : 3); add_rings(K_CHAIN_BACK, NI > 5 ? 2 : 3); return; }
     /* list flavours; the alphabet is split in two variants to stay below 256 operations */
     add_op(K_UNCHAIN, -1, -1); add_op(K_SORT, -1, -1);
